@@ -594,7 +594,9 @@ def run(ctx):
                     ctx.seed = seed0 * 1000 + rnd
                     more, _ = simulate(ctx, "sim%d" % rnd, 300, 14, 30)
                     more = dress(more, random.Random(ctx.seed), follower_pct=40, restart_pct=100, sc0=100000 * rnd)
-                    extra.append(run_and_judge(ctx, more, "more%d" % rnd, spin=(rnd % 2 == 1)))      # odd rounds: spinlock build
+                    # (mutex build only: the optional spinlock lets writers - the sweeper among them - wait for as long as readers
+                    # overlap, and the pollers of this driver overlap all the time; with it "bounded delay" is not decidable here)
+                    extra.append(run_and_judge(ctx, more, "more%d" % rnd))
                     progs += more
             finally:
                 ctx.seed = seed0
